@@ -30,6 +30,9 @@ pub enum ProcCase {
         /// run the binary as an ordinary user that owns the directory (permission bits bite)
         #[serde(default)]
         unprivileged: bool,
+        /// start the binary in this directory (relative to the case directory) with relative arguments
+        #[serde(default)]
+        cwd: Option<String>,
         cmd: String,
         /// arguments relative to the case directory
         args: Vec<String>,
@@ -107,7 +110,7 @@ fn viol(prop: &str, what: &str, detail: String) -> Violation {
 }
 
 fn run_cli_case(prop: &str, bin: &Path, dir: &Path, case: &ProcCase) -> Option<Violation> {
-    let ProcCase::Cli { label, files, symlinked, extras, unprivileged, cmd, args, predicted_ok, predicted_codes, .. } = case else { return None };
+    let ProcCase::Cli { label, files, symlinked, extras, unprivileged, cwd, cmd, args, predicted_ok, predicted_codes, .. } = case else { return None };
     let ws = dir.join("ws");
     std::fs::create_dir_all(&ws).ok()?;
     for (name, bytes) in files {
@@ -161,9 +164,16 @@ fn run_cli_case(prop: &str, bin: &Path, dir: &Path, case: &ProcCase) -> Option<V
     let out_path = dir.join("stdout.txt");
     let err_path = dir.join("stderr.txt");
     let mut command = Command::new(bin);
+    command.arg(cmd);
+    match cwd {
+        Some(c) => {
+            command.args(args.iter().map(|a| crate::world::relative_arg(a, c))).current_dir(dir.join(c));
+        }
+        None => {
+            command.args(args.iter().map(|a| dir.join(a)));
+        }
+    }
     command
-        .arg(cmd)
-        .args(args.iter().map(|a| dir.join(a)))
         .env("TMPDIR", &tmp)
         .stdin(Stdio::null())
         .stdout(std::fs::File::create(&out_path).ok()?)
